@@ -58,11 +58,10 @@ theorem pubE_call_inv {tbl f args site seg} (h : pubE tbl (.call f args site) = 
   rw [pubE] at h
   cases ha : pubL tbl args <;> cases hf : tbl f <;> simp_all
 
-theorem some_nil_of_match {x : Option (List LCell)} (h : (match x with | some [] => true | _ => false) = true) :
-    x = some [] := by
+theorem some_nil_of_match {x : Option (List LCell)} (h : isNil x = true) : x = some [] := by
   cases x with
-  | none => simp at h
-  | some l => cases l <;> simp_all
+  | none => simp [isNil] at h
+  | some l => cases l <;> simp_all [isNil]
 
 /-! ### the published cells are visited -/
 
@@ -219,5 +218,12 @@ theorem visits_covers (P : Prog) {e : Expr} {seg : List LCell} (h : Visits P e s
     · exact ihe cells (fun c hc => hs c (List.mem_append_left _ hc))
     · exact ihes cells (fun c hc => hs c (List.mem_append_right _ hc)) e hm
 
+
+/-- a named call always visits its child cell -/
+theorem visits_call_ne_nil {P : Prog} {f : String} {args : List Expr} {site : Nat}
+    (h : Visits P (.call f args site) []) : False := by
+  generalize hs : ([] : List LCell) = s at h
+  cases h with
+  | call ha _ _ => simp at hs
 
 end Mimium.Publish
